@@ -11,7 +11,7 @@
 #      (file) bystander check on real PDF files (processMemoryFile, writeJSON, QPDFWriter, copyForeignObject);
 #      (thr)  N threads x independent jobs under ThreadSanitizer, outputs compared with the solo runs.
 import json, os, re, subprocess
-import common
+import common, pdfgen
 
 ASSUMPTIONS = [
     "the theorems quantify over all interleavings of the MODEL's steps; the implementation's interleavings are only sampled and ThreadSanitizer only sees executed paths",
@@ -336,6 +336,127 @@ def part_seq(chk, drv, runner):
     chk.cov["parts"]["solo"]["projected_histories"] = len(sl)
 
 
+# ------------------------------------------------------------------ threads (ThreadSanitizer)
+
+def make_pdfs(wd):
+    from pdfgen import Name as N
+    files = {"clean": [], "nulls": []}
+    for i, (n, nulls) in enumerate([(2, False), (4, False), (5, False), (3, True), (5, True)]):
+        if nulls:
+            extra = {b"QV": [None, 1, {b"K": None, b"L": [None, 2]}], b"QS": [None] * 120 + [5]}
+        else:
+            extra = {b"QV": [7, 1, {b"K": N(b"V"), b"L": [True, 2]}]}
+        doc = pdfgen.page_doc(n, marker="ABCDE"[i], kids_levels=1 + (i % 2), extra=extra,
+                              rotate={1: 90} if i % 2 else None)
+        data, _ = pdfgen.write_classic(doc)
+        path = os.path.join(wd, "in%d.pdf" % i)
+        with open(path, "wb") as f:
+            f.write(data)
+        files["nulls" if nulls else "clean"].append(path)
+    return files
+
+
+def tsan_reports(prefix):
+    """-> list of report texts written by this run (log_path=prefix)"""
+    out = []
+    d = os.path.dirname(prefix)
+    for fn in sorted(os.listdir(d)):
+        if fn.startswith(os.path.basename(prefix) + "."):
+            txt = open(os.path.join(d, fn), errors="replace").read()
+            out += ["WARNING: ThreadSanitizer" + b for b in txt.split("WARNING: ThreadSanitizer")[1:]]
+    return out
+
+
+def classify_report(rep):
+    """'known' = the racing location is one of the shared static null objects (finding D6);
+       'qpdf' = any other report with a libqpdf frame; 'foreign' = no libqpdf frame at all"""
+    loc = rep.split("Location is", 1)[1] if "Location is" in rep else ""
+    loc = loc.split("\n\n", 1)[0]
+    if "qpdf::impl::Parser::add_null()" in loc or "QPDF_Array.cc" in loc and "newNull" in loc or "null_obj" in loc.split("\n")[0] \
+            or "null_oh" in loc.split("\n")[0]:
+        return "known"
+    if "/libqpdf/" in rep or "/include/qpdf/" in rep or "qpdf::" in rep or "QPDF" in rep:
+        return "qpdf"
+    return "foreign"
+
+
+def part_thr(chk):
+    if os.environ.get("VERIF_C20_SKIP_THR"):
+        chk.cov["parts"]["thr"] = {"skipped": "VERIF_C20_SKIP_THR set"}
+        return
+    common.build_repo("tsan")
+    tsan = common.build_drv("tsan")
+    drv = os.path.join(common.DRV, "drv")
+    wd = common.workdir("C20")
+    files = make_pdfs(wd)
+    supp = os.path.join(common.VERIF, "harness", "tsan_c20.supp")
+    nthr = 4
+    quick = chk.tier == "quick"
+    runs = []
+    for k in range(5 if quick else 60):
+        runs.append(("clean", chk.seed * 1000 + k, 6 if quick else 12))
+    for k in range(3 if quick else 20):
+        runs.append(("nulls", chk.seed * 1000 + 500 + k, 6 if quick else 12))
+
+    def one(idx):
+        cfg, seed, rounds = runs[idx]
+        sub = os.path.join(wd, "run%d" % idx)
+        os.makedirs(sub, exist_ok=True)
+        line = "thr %d %d %d %s %s%s" % (nthr, rounds, seed, sub, ",".join(files[cfg]), " nulls" if cfg == "nulls" else "")
+        env = {"TSAN_OPTIONS": "log_path=%s/tsan halt_on_error=0 exitcode=0 suppressions=%s print_suppressions=1 history_size=4" % (sub, supp)}
+        out = common.run_lines(tsan, [line], env=env, timeout=900)[0]
+        reps = tsan_reports(os.path.join(sub, "tsan"))
+        # the same jobs without the sanitizer, more threads (outputs only)
+        out2 = common.run_lines(drv, [line.replace("thr %d " % nthr, "thr 8 ", 1)], timeout=900)[0]
+        return line, out, reps, out2
+
+    res = common.par_map(one, range(len(runs)), workers=4)
+    njobs = 0
+    counts = {"known": 0, "qpdf": 0, "foreign": 0, "suppressed_libstdcxx": 0}
+    kinds = {}
+    nontriv = set()
+    for (cfg, seed, rounds), (line, out, reps, out2) in zip(runs, res):
+        for o, how in ((out, "tsan build, %d threads" % nthr), (out2, "plain build, 8 threads")):
+            m = re.match(r"jobs=(\d+) diff=(\d+) kinds=(\S*)", o)
+            if not m:
+                chk.violation({"kind": "property-fails-on-implementation", "part": "thr", "why": "the threads driver did not finish (%s)" % how,
+                               "output": o[:800], "replay": line})
+                continue
+            njobs += int(m.group(1))
+            for kv in m.group(3).split(","):
+                if kv:
+                    kinds[kv.split("=")[0]] = kinds.get(kv.split("=")[0], 0) + int(kv.split("=")[1])
+            if int(m.group(2)):
+                chk.violation({"kind": "property-fails-on-implementation", "part": "thr",
+                               "why": "a thread's output differs from the output of the same job run alone (%s)" % how,
+                               "differences": o[:1500], "replay": line})
+            nontriv.add((cfg, seed, how))
+        for r in reps:
+            if "Matched" in r and "suppressions" in r:
+                continue
+            c = classify_report(r)
+            counts[c] += 1
+            if c == "known":
+                chk.violation({"kind": "data-race", "part": "thr", "report": r[:3000], "replay": line}, signature=SIG_RACE)
+            elif c == "qpdf":
+                chk.violation({"kind": "data-race", "part": "thr", "why": "ThreadSanitizer report with a libqpdf frame on a location that is not one of the known shared statics; "
+                               "the model predicts no conflict between threads that use distinct documents",
+                               "config": cfg, "report": r[:4000], "replay": line})
+        sub = os.path.dirname(line.split(" ")[4]) if False else None
+    for idx in range(len(runs)):
+        d = os.path.join(wd, "run%d" % idx)
+        for fn in os.listdir(d):
+            if fn.startswith("tsan."):
+                for m in re.finditer(r"^(\d+) race:", open(os.path.join(d, fn), errors="replace").read(), re.M):
+                    counts["suppressed_libstdcxx"] += int(m.group(1))
+    chk.count("thr", njobs, nontriv, samples=[{"run": res[0][0], "output": res[0][1][:200]}])
+    p = chk.cov["parts"]["thr"]
+    p["schedules"] = 2 * len(runs)
+    p["job_kind_distribution"] = kinds
+    p["tsan_reports"] = counts
+    p["model_predicted_conflicts"] = {"clean": "none (threads_disjoint_footprints)", "nulls": "the shared null cell (race_on_shared_null_refuted)"}
+
+
 def run(chk):
     drv = os.path.join(common.DRV, "drv")
     runner = os.path.join(common.EXTRACT, "model_runner")
@@ -345,6 +466,10 @@ def run(chk):
                        "other documents, of handles obtained from them and of two fresh parses must be unchanged; non-trivial = history with "
                        ">= 4 performed calls on which the frame held and the model agrees, distinct by history text")
     part_seq(chk, drv, runner)
+    part_thr(chk)
+    chk.cov["rule"] += ("; thr: %s" % "4 (TSan) and 8 (plain) threads x 6-12 jobs each (object-API build, open+JSON, open+write in 7 modes, JSON round trip, "
+                        "page mutation + copy from a second own document, QPDFJob argv, inspect, QPDFJob JSON) on null-free and on null-containing inputs; "
+                        "every output compared with the same job run alone; every TSan report attributed (known shared-null / other libqpdf / foreign)")
 
 
 def replay(chk, rep):
